@@ -111,7 +111,14 @@ func init() {
 				for i := 0; i < ns; i++ {
 					cs = append(cs, fw.Case{ID: fmt.Sprintf("solver/%d", i), Kind: "solver", P: map[string]any{"i": i}})
 				}
-				cs = append(cs, fw.Case{ID: "commit/perm", Kind: "commit", P: map[string]any{}})
+				cs = append(cs, fw.Case{ID: "commit/perm", Kind: "commit", P: map[string]any{"face": "commit"}})
+				nsq := 3
+				if !ctx.Quick {
+					nsq = 40
+				}
+				for i := 0; i < nsq; i++ {
+					cs = append(cs, fw.Case{ID: fmt.Sprintf("native/permseq/%d", i), Kind: "commit", P: map[string]any{"face": "native"}})
+				}
 				return cs
 			},
 			Exec: func(ctx *fw.Ctx, c fw.Case) fw.Outcome {
@@ -334,15 +341,27 @@ func init() {
 					for i := 0; i < 12; i++ {
 						states = append(states, c09State(r, i%7))
 					}
-					res := harnRunCommitPadded(func(api frontend.API) {
+					body := func(api frontend.API) {
+						chip := poseidon.NewGoldilocksChip(api) // ONE chip for the whole sequence
 						for _, s := range states {
-							in := make([]frontend.Variable, 12)
-							for i := range in {
-								in[i] = s[i]
+							var st poseidon.GoldilocksState
+							for i := range st {
+								st[i] = gl.NewVariable(s[i])
 							}
-							outs = append(outs, poseidonPermGadget(api, in))
+							out := chip.Poseidon(st)
+							ov := make([]frontend.Variable, 12)
+							for i := range ov {
+								ov[i] = out[i].Limb
+							}
+							outs = append(outs, ov)
 						}
-					}, gadget.PadCommit)
+					}
+					var res engine.Result
+					if c.Str("face") == "native" {
+						res = harnRunOpt(engine.Options{Face: engine.Native}, func(api frontend.API) error { body(api); return nil })
+					} else {
+						res = harnRunCommitPadded(body, gadget.PadCommit)
+					}
 					o.Events += events(res)
 					if res.Verdict != engine.Accept {
 						return fw.Violate("permutation_failed:commit", resStr(res))
@@ -463,6 +482,13 @@ func c10Prop() *fw.Prop {
 			for _, sys := range []string{"r1cs", "scs"} {
 				cs = append(cs, fw.Case{ID: "solver/" + sys, Kind: "solver", P: map[string]any{"sys": sys}})
 			}
+			nsq := 4
+			if !ctx.Quick {
+				nsq = 60
+			}
+			for i := 0; i < nsq; i++ {
+				cs = append(cs, fw.Case{ID: fmt.Sprintf("seq/%d", i), Kind: "seq", P: map[string]any{"i": i}})
+			}
 			return cs
 		},
 		Exec: func(ctx *fw.Ctx, c fw.Case) fw.Outcome {
@@ -523,6 +549,58 @@ func c10Prop() *fw.Prop {
 					o.Inc("shortcut_cases")
 				}
 				o.Sample = map[string]any{"len": n}
+			case "seq":
+				// hashes of many different lengths, compressions and conversions on ONE chip in ONE circuit
+				type job struct {
+					vals []ref.F
+					outs []frontend.Variable
+				}
+				var jobs []*job
+				for k := 0; k < 24; k++ {
+					n := r.Intn(31)
+					if k%5 == 4 {
+						n = []int{0, 3, 4, 9, 10}[r.Intn(5)]
+					}
+					j := &job{vals: make([]ref.F, n)}
+					for i := range j.vals {
+						j.vals[i] = randGL(r)
+					}
+					jobs = append(jobs, j)
+				}
+				res := harnRunOpt(engine.Options{Face: engine.Native}, func(api frontend.API) error {
+					chip := poseidon.NewBN254Chip(api)
+					for _, j := range jobs {
+						vs := make([]gl.Variable, len(j.vals))
+						for i := range vs {
+							vs[i] = gl.NewVariable(j.vals[i])
+						}
+						h := chip.HashNoPad(vs)
+						hn := chip.HashOrNoop(vs)
+						t := chip.TwoToOne(h, hn)
+						j.outs = []frontend.Variable{h, hn, t}
+						for _, x := range chip.ToVec(t) {
+							j.outs = append(j.outs, x.Limb)
+						}
+					}
+					return nil
+				})
+				o.Events += events(res) + int(res.Stats.Muls)
+				if res.Verdict != engine.Accept {
+					return fw.Violate("bn254_sequence_failed", resStr(res))
+				}
+				for _, j := range jobs {
+					h, hn := ref.BNHashNoPad(j.vals), ref.BNHashOrNoop(j.vals)
+					t := ref.BNTwoToOne(h, hn)
+					if !eq(engine.Value(j.outs[0]), h) || !eq(engine.Value(j.outs[1]), hn) || !eq(engine.Value(j.outs[2]), t) {
+						return fw.Violate("wrong_bn254_hash_in_sequence", fmt.Sprintf("inputs %v (length %d) hashed after other inputs on the same chip", j.vals, len(j.vals)))
+					}
+					for i, w := range ref.BNToVec(t) {
+						if engine.Value(j.outs[3+i]).Cmp(bu(w)) != 0 {
+							return fw.Violate("tovec_wrong_chunk_in_sequence", fmt.Sprintf("chunk %d", i))
+						}
+					}
+					o.Inc("sequence_hashes_checked")
+				}
 			case "twotoone":
 				s := c10BNState(r, 2+c.Int("i")%2)
 				fn := func(api frontend.API, vin []frontend.Variable) []frontend.Variable {
